@@ -471,3 +471,111 @@ func directiveDestinationsSeen(c *Check, fis []*FuncInfo) {
 		_ = order
 	}
 }
+
+// ---- E14: a store into a local copy of an array is not a store into the original.
+// Go arrays are values: `code := err.EnhancedCode` copies the three digits, `code[0] = 4` changes the copy. When
+// nothing reads the copy afterwards the update is lost – the original keeps its class digit (C16Q: the 552 → 452
+// rewrite for RCPT left `452 5.x.x`). Decided per function: after an element store into a local of array type no
+// path reaches the end of the function without a read of that local.
+func arrayCopyStoreSeen(c *Check, fis []*FuncInfo) {
+	c.Rule("E14", "an element store into a local variable of array type is followed by a read of that variable on every path (arrays are copied by assignment: a store into a copy that is never read again is a lost update of the original)", 0)
+	defer func() { c.HoldConst("E14", "functions-examined", token.NoPos, true, "") }()
+	seen := map[*types.Func]bool{}
+	for _, fi := range fis {
+		if fi == nil || seen[fi.Obj] || fi.Decl.Body == nil {
+			continue
+		}
+		seen[fi.Obj] = true
+		info := fi.Info()
+		// pre-filter: an element store into a local array
+		cand := false
+		ast.Inspect(fi.Decl.Body, func(x ast.Node) bool {
+			if as, ok := x.(*ast.AssignStmt); ok {
+				for _, l := range as.Lhs {
+					if ix, isI := ast.Unparen(l).(*ast.IndexExpr); isI {
+						if o := objOf(info, ix.X); o != nil {
+							if _, isArr := o.Type().Underlying().(*types.Array); isArr {
+								cand = true
+							}
+						}
+					}
+				}
+			}
+			return true
+		})
+		if !cand {
+			continue
+		}
+		funcBodies(c.P, fi, func(name string, body *ast.BlockStmt, fl *Flow) {
+			n := 0
+			for _, pt := range fl.Points() {
+				as, ok := pt.Node().(*ast.AssignStmt)
+				if !ok || !directlyIn(body, as) {
+					continue
+				}
+				for _, l := range as.Lhs {
+					ix, isI := ast.Unparen(l).(*ast.IndexExpr)
+					if !isI {
+						continue
+					}
+					o := objOf(info, ix.X)
+					v, isVar := o.(*types.Var)
+					if !isVar || v.IsField() || !localIn(body, o) {
+						continue
+					}
+					if _, isArr := v.Type().Underlying().(*types.Array); !isArr {
+						continue
+					}
+					// named results and variables captured by closures are read elsewhere
+					sig, _ := fi.Obj.Type().(*types.Signature)
+					isResult := false
+					if sig != nil {
+						for i := 0; i < sig.Results().Len(); i++ {
+							if sig.Results().At(i) == v {
+								isResult = true
+							}
+						}
+					}
+					captured := false
+					ast.Inspect(body, func(y ast.Node) bool {
+						if lit, ok := y.(*ast.FuncLit); ok && mentions(info, lit.Body, o) {
+							captured = true
+						}
+						return true
+					})
+					if isResult || captured {
+						continue
+					}
+					n++
+					reads := func(q Pt) bool {
+						nd := q.Node()
+						if nd == nil || q == pt {
+							return false
+						}
+						// a use other than as the array of an element store
+						found := false
+						skip := map[*ast.Ident]bool{}
+						ast.Inspect(nd, func(y ast.Node) bool {
+							if a2, ok := y.(*ast.AssignStmt); ok {
+								for _, l2 := range a2.Lhs {
+									if ix2, isI2 := ast.Unparen(l2).(*ast.IndexExpr); isI2 {
+										if id, isId := ast.Unparen(ix2.X).(*ast.Ident); isId {
+											skip[id] = true
+										}
+									}
+								}
+							}
+							if id, ok := y.(*ast.Ident); ok && !skip[id] && info.Uses[id] == o {
+								found = true
+							}
+							return true
+						})
+						return found
+					}
+					path, lost := fl.Reach(Query{From: []Pt{pt}, Target: fl.IsExitPt, Avoid: reads})
+					c.Hold("E14", name+":"+o.Name()+":store"+itoa(n), as.Pos(), !lost, "line "+itoa(p0(c.P, as.Pos()))+": "+exprStr(l)+" stores into the local array "+o.Name()+", which is a copy (arrays are values) and is not read afterwards ("+fl.Describe(path)+"): the value it was copied from is unchanged – the update is lost")
+				}
+			}
+		})
+	}
+}
